@@ -74,7 +74,14 @@ class PrintAstVisitor(Visitor):
 
     @staticmethod
     def leave_document(node: PrintedNode, *_args: Any) -> str:
-        return join(node.definitions, "\n\n")
+        definitions = list(node.definitions)
+        # An anonymous query in shorthand form would be read as the block of a
+        # preceding definition that does not end with one (like "type T" or
+        # "extend schema @d"), so it is printed with the "query" keyword there.
+        for i in range(1, len(definitions)):
+            if definitions[i].startswith("{") and not definitions[i - 1].endswith("}"):
+                definitions[i] = "query " + definitions[i]
+        return join(definitions, "\n\n")
 
     @staticmethod
     def leave_operation_definition(node: PrintedNode, *_args: Any) -> str:
